@@ -526,6 +526,8 @@ def expr_of(fv, o, depth=12):
     ('cast', a, ty) | ('call', name, [args]) | ('ref', e) | ('agg', kind, [..]) | ('disc', e) | ('idx', base_e, index_e)"""
     if o[0] == "k":
         k = o[1]
+        if "fn" in k:
+            return ("fnitem", k["fn"])
         return ("const", k.get("v"), k.get("ty"), k.get("def"))
     pl = o[1]
     return _expr_place(fv, pl, depth)
